@@ -763,6 +763,14 @@ pub fn monitors_c16(trace: &[Tick], sc: &Scenario, mon: &mut crate::Mon) {
                 continue;
             }
             mon.count(&format!("loop-cc-{}", l.cc_state));
+            // every listed uplink has a CC entry from the first pass it is part of: a snapshot without one (state
+            // "unknown", target 0) on an uplink that already had one means the loop lost the entry
+            if (l.cc_state == "unknown" || l.cc_target_bps == 0) && prev.get(&l.ip).is_some_and(|p| p.cc_target_bps != 0) {
+                mon.fail("C16", "loop-cc-entry-lost", format!("real event loop [{what}]: tick {} reports uplink {} with CC state {:?} and target {} although the uplink stayed listed and had target {} one tick earlier :: {}", t.n, l.ip, l.cc_state, l.cc_target_bps, prev[&l.ip].cc_target_bps, dump(trace, &l.ip)));
+            }
+            if l.cc_target_bps == 0 {
+                mon.count("loop-cc-target-zero");
+            }
             if l.cc_target_bps != 0 && (l.cc_target_bps < 100_000 || l.cc_target_bps > 200_000_000) {
                 mon.fail("C16", "loop-bounds", format!("real event loop [{what}]: tick {} {} target {} outside [100000, 200000000]", t.n, l.ip, l.cc_target_bps));
             }
@@ -776,8 +784,9 @@ pub fn monitors_c16(trace: &[Tick], sc: &Scenario, mon: &mut crate::Mon) {
                         let ok = match l.cc_state.as_str() {
                             "backing_off" => l.cc_target_bps as u128 * 100 + 100 >= p.cc_target_bps as u128 * 85,
                             "drain" => p.cc_state != "drain",
-                            // a restarted controller entry (link re-created / entry collected) starts from the floor again
-                            "bootstrap" => true,
+                            // a controller entry restarts from the floor only with its uplink (re-created: the
+                            // snapshots show it not connected at one of the two ticks)
+                            "bootstrap" => !(p.connected && l.connected),
                             _ => false,
                         };
                         if !ok {
